@@ -584,6 +584,10 @@ def set_notebook_diff_ignores(ignore_paths):
             if path in notebook_differs:
                 del notebook_differs[path]
         elif isinstance(subkeys, (list, tuple, set)):
+            # Filter the default differ of the path, not an ignore or a key
+            # filter left there by an earlier call
+            if path in notebook_differs:
+                del notebook_differs[path]
             notebook_differs[path] = diff_ignore_keys(notebook_differs[path], subkeys)
         else:
             raise ValueError('Invalid ignore config entry: %r: %r' % (path, subkeys))
